@@ -94,7 +94,7 @@ Definition fetch_string (size : nat) (s : bytes) : outcome bytes :=
   if (size - 1 <? length s)%nat then Err ARES_EFORMERR
   else if forallb isprint s then Ok s else Err ARES_EBADSTR.
 
-(* ares_strsplit(in, delms): NULL both for "no memory" and for "nothing / not printable" *)
+(* ares_strsplit(in, delms) (no longer used by the modelled code): NULL both for "no memory" and for "nothing / not printable" *)
 Definition strsplit (s delims : bytes) : option (list bytes) :=
   match s with
   | [] => None                                       (* ares_buf_create_const(.., 0) == NULL *)
@@ -153,6 +153,7 @@ Definition parse_sort (entry : bytes) : outcome apat :=
                        | _ =>
                          do maskstr <- fetch_string 16 m;
                          if str_isnum maskstr then
+                           if (3 <? length maskstr)%nat then Err ARES_EBADSTR else
                            do mask <- atoi maskstr;
                            if ((mask <? 0) || (128 <? mask))%Z then Err ARES_EBADSTR
                            else if (match a with A4 _ => true | A6 _ => false end && (32 <? mask)%Z)%bool then Err ARES_EBADSTR
@@ -194,10 +195,16 @@ Definition parse_sortlist (str : bytes) : outcome (list apat) :=
   end.
 
 (* ------------------------------------------------------------------ search / lookup / options *)
+(* config_search: a list that is empty, does not parse (not printable) or names nothing is ignored *)
 Definition config_search (cfg : sysconfig) (str : bytes) (max_domains : nat) : outcome sysconfig :=
-  match strsplit str s_sep_domains with
-  | None => Err ARES_ENOMEM
-  | Some l => Ok (set_domains cfg (if (max_domains =? 0)%nat then l else firstn max_domains l))
+  match str with
+  | [] => Ok cfg
+  | _ =>
+    match buf_split_str s_sep_domains false true true 0 str with
+    | Ok [] => Ok cfg
+    | Ok l => Ok (set_domains cfg (if (max_domains =? 0)%nat then l else firstn max_domains l))
+    | _ => Ok cfg
+    end
   end.
 
 Definition kw (s : bytes) (w : bytes) : bool := bytes_eqb s w.
@@ -232,18 +239,35 @@ Definition config_lookup (cfg : sysconfig) (buf separators : bytes) : outcome sy
   end.
 
 
+(* the value of name:value - a plain decimal number of at most 9 digits, else no value *)
+Definition option_value (vr : list bytes) : option Z :=
+  match vr with
+  | v :: _ => if str_isnum v && (length v <=? 9)%nat then Some (digits_value v) else None
+  | [] => None
+  end.
+
 (* process_option: Ok = ARES_SUCCESS, Err = the status that ares_sysconfig_set_options ignores *)
 Definition process_option (cfg : sysconfig) (option : bytes) : outcome sysconfig :=
   do kv <- buf_split_str [ch_colon] true false false 2 option;
   match kv with
   | [] => Err ARES_EBADSTR
   | key :: vr =>
-    let valint := match vr with v :: _ => strtoul10_u32 v | [] => 0%Z end in
-    if kw key on_ndots then Ok (set_ndots cfg valint)
+    let value := option_value vr in
+    if kw key on_ndots then
+      match value with
+      | None => Err ARES_EFORMERR
+      | Some v => Ok (set_ndots cfg (if (15 <? v)%Z then 15%Z else v))
+      end
     else if kw key on_retrans || kw key on_timeout then
-      if (valint =? 0)%Z then Err ARES_EFORMERR else Ok (set_timeout_ms cfg (u32 (valint * 1000)))
+      match value with
+      | None => Err ARES_EFORMERR
+      | Some v => if ((v =? 0) || (4294967 <? v))%Z then Err ARES_EFORMERR else Ok (set_timeout_ms cfg (v * 1000)%Z)
+      end
     else if kw key on_retry || kw key on_attempts then
-      if (valint =? 0)%Z then Err ARES_EFORMERR else Ok (set_tries cfg valint)
+      match value with
+      | None => Err ARES_EFORMERR
+      | Some v => if (v =? 0)%Z then Err ARES_EFORMERR else Ok (set_tries cfg v)
+      end
     else if kw key on_rotate then Ok (set_rotate cfg true)
     else if kw key on_usevc1 || kw key on_usevc2 then Ok (set_usevc cfg true)
     else Ok cfg
@@ -263,7 +287,7 @@ Fixpoint set_options_loop (cfg : sysconfig) (opts : list bytes) : outcome syscon
 (* ares_sysconfig_set_options *)
 Definition set_options (cfg : sysconfig) (str : bytes) : outcome sysconfig :=
   match str with
-  | [] => Err ARES_ENOMEM                              (* ares_buf_create_const(str, 0) == NULL *)
+  | [] => Ok cfg                                       (* an empty option string sets nothing *)
   | _ => set_options_loop cfg (buf_split s_sep_ws true false false 0 str)
   end.
 
@@ -291,7 +315,7 @@ Definition uri_set_host (host : bytes) : option bytes :=
     if (256 <=? length host)%nat then None else
     let (h, r) := span (fun c => negb (c =? ch_pct)) host in
     let scope := match r with _ :: sc => Some sc | [] => None end in
-    if match scope with Some sc => negb (str_isalnum sc) | None => false end then None
+    if match scope with Some sc => negb (forallb chis_unreserved sc) || (length sc =? 0)%nat | None => false end then None
     else match nf_pton nf h with
          | Some a =>
            match scope, a with
@@ -388,11 +412,13 @@ Definition parse_nameserver_uri (entry : bytes) : uri_res :=
                     | Some a =>
                       match tcpq with
                       | None => UriOk (mkSconf a udp udp iface 0)
-                      | Some v => match atoi v with
-                                  | Ok t => UriOk (mkSconf a udp (u16 t) iface 0)
-                                  | UB k => UriUB k
-                                  | Err _ => UriFail
-                                  end
+                      | Some v =>
+                        if negb (str_isnum v) || (5 <? length v)%nat then UriFail else
+                        match atoi v with
+                        | Ok t => UriOk (mkSconf a udp (u16 t) iface 0)
+                        | UB k => UriUB k
+                        | Err _ => UriFail
+                        end
                       end
                     end
                   end
@@ -466,6 +492,7 @@ Definition addr_blacklisted (a : addr) : bool :=
 (* ares_sconfig_linklocal: Some (iface, scope) or None (entry silently ignored) *)
 Definition sconfig_linklocal (ifs : option iftab) (ll_iface : bytes) : outcome (option (bytes * Z)) :=
   if str_isnum ll_iface then
+    if (9 <? length ll_iface)%nat then Ok None else
     do idx <- atoi ll_iface;
     match ifs with
     | None => Ok None
@@ -478,7 +505,7 @@ Definition sconfig_linklocal (ifs : option iftab) (ll_iface : bytes) : outcome (
     let sc := match ifs with Some t => if_nametoindex t ll_iface | None => 0%Z end in
     if (sc =? 0)%Z then Ok None else Ok (Some (ll_iface, sc)).
 
-(* ares_sconfig_append; [l = None] is a NULL list, which is created before the link-local test *)
+(* ares_sconfig_append; [l = None] is a NULL list, which is created only for an entry that is kept *)
 Definition sconfig_append (ifs : option iftab) (l : option (list sconf)) (a : addr) (udp tcp : Z) (ll_iface : bytes)
   : outcome (option (list sconf)) :=
   if addr_blacklisted a then Ok l
@@ -486,11 +513,11 @@ Definition sconfig_append (ifs : option iftab) (l : option (list sconf)) (a : ad
     let cur := match l with Some x => x | None => [] end in
     if addr_is_linklocal a then
       match ll_iface with
-      | [] => Ok (Some cur)
+      | [] => Ok l
       | _ => do r <- sconfig_linklocal ifs ll_iface;
              match r with
              | Some (nm, sc) => Ok (Some (cur ++ [mkSconf a udp tcp nm sc]))
-             | None => Ok (Some cur)
+             | None => Ok l
              end
       end
     else Ok (Some (cur ++ [mkSconf a udp tcp [] 0])).
